@@ -182,6 +182,36 @@ def check_alloc(arg):
     return res
 
 
+def check_sized(arg):
+    """scale-dependent shape: a reference-written header of exactly 1x / 2x 32 KiB (and one byte less / more); the file must open
+    (the reference hashes every byte, so a reader that leaves a block out computes another digest) and substitutions at the
+    block seams, at both ends and at a stride must be refused"""
+    name, base = arg
+    p = zckref.parse(base)
+    pos = sorted({q for q in list(range(p.lead_len, p.lead_len + 48)) + list(range(p.header_len - 48, p.header_len)) +
+                  [p.lead_len + k + d for k in range(0, p.header_len - p.lead_len + 1, 32768) for d in (-2, -1, 0, 1)] +
+                  list(range(p.lead_len, p.header_len, 997)) if p.lead_len <= q < p.header_len})
+    res = {"name": name, "n": 0, "opened": [], "base_opens": {}, "bad": []}
+    for mode in ("init", "adv"):
+        job = ["mode %s" % mode, "base %s" % base.hex(), "file %s" % base.hex()]
+        muts = []
+        for q in pos:
+            for v in (base[q] ^ 0x01, base[q] ^ 0x80, 0x00 if base[q] else 0xff):
+                m = bytearray(base); m[q] = v
+                muts.append((q, v)); job.append("edit %d 1 %02x" % (q, v))
+        cs = core.drv("openenum", "\n".join(job) + "\n")
+        for c, mu in zip(cs, [None] + muts):
+            e = c.first("E")
+            if not c.done or e is None:
+                res["bad"].append(c.status()); continue
+            res["n"] += 1
+            if mu is None:
+                res["base_opens"][mode] = e["opened"] == "1"
+            elif e["opened"] == "1":
+                res["opened"].append((mode, mu[0], mu[1]))
+    return res
+
+
 def region(p, pos):
     if pos < 5:
         return "magic"
@@ -266,6 +296,26 @@ def run(ctx):
     ctx.extra["allocation_failure_part"] = {"bases": len(sel), "allocations_per_open": na, "cases_not_judged_because_the_open_crashed": crashes}
     ctx.bounds["allocation_failures"] = "every single allocation of the open failing x all 255 substitutes at %s header position of %d bases" % (
         "every third" if quick else "every", len(sel))
+    # headers of exactly one and two internal buffers
+    sized = [("ref-header-%d" % t, universe.header_sized_file(t, ctx.seed)) for t in ((32768, 65536, 32767) if quick else (32768, 65536, 98304, 32767, 32769, 65535))]
+    for r in core.pmap(check_sized, sized):
+        base = dict(sized)[r["name"]]
+        p = zckref.parse(base)
+        ctx.states += r["n"]; ctx.transitions += r["n"]; ctx.evaluations += r["n"]
+        for st in r["bad"]:
+            ctx.violation({"check": "C06", "predicate": "crash-or-sanitizer-on-open", "mode": "sized"}, "opening %s or a mutant of it crashed: %s" % (r["name"], st),
+                          {"kind": "sized", "target": int(r["name"].split("-")[-1])})
+        for mode, ok in r["base_opens"].items():
+            if not ok:
+                ctx.violation({"check": "C06", "predicate": "valid-base-does-not-open", "writer": "ref-header-sized", "mode": mode},
+                              "reference-written file with a header of exactly %s bytes behind the lead does not open" % r["name"].split("-")[-1],
+                              {"kind": "file", "mode": mode, "file": base.hex(), "expect_open": True, "pins": pins_of(p)})
+        for mode, q, v in r["opened"]:
+            m = bytearray(base); m[q] = v
+            ctx.violation({"check": "C06", "predicate": "mutant-opens", "edit": "substitute", "region": region(p, q), "mode": mode, "header": "sized"},
+                          "%s: header byte %d (%s) %02x->%02x still opens" % (r["name"], q, region(p, q), base[q], v),
+                          {"kind": "file", "mode": mode, "file": bytes(m).hex(), "expect_open": False, "pins": pins_of(p)})
+    ctx.bounds["sized_headers"] = "headers of exactly %s bytes behind the lead: base must open, substitutions at block seams, both ends and a stride of 997" % [n.split("-")[-1] for n, _ in sized]
     ctx.sample({"base": bases[0][0], "header_len": results[0]["hlen"], "example_mutant": "byte 7 := 0x00 .. 0xff (255 values)"})
     ctx.sample({"base": bases[-1][0], "recipes": RECIPES})
     ctx.extra["base_files"] = [n for n, _ in bases]
@@ -279,6 +329,9 @@ def replay(case, quiet=True):
             return {"violated": True, "detail": c.status()}
         opened = c.first("E")["opened"] == "1"
         return {"violated": opened != case["expect_open"], "detail": {"opened": opened, "expected": case["expect_open"]}}
+    if case["kind"] == "sized":
+        r = check_sized(("ref-header-%d" % case["target"], universe.header_sized_file(case["target"], int(__import__("os").environ.get("VERIF_SEED", "0") or 0))))
+        return {"violated": bool(r["bad"]), "detail": r["bad"][:2]}
     if case["kind"] == "alloc":
         r = check_alloc((case["name"], bytes.fromhex(case["base"]), case["pos"], case["pos"] + 1, case.get("mode", "init")))
         return {"violated": bool(r["opened"]), "detail": r["opened"][:3]}
